@@ -88,6 +88,34 @@ static int ta_starve;   /* every request is refused while set (calls that must n
 static unsigned long ta_fail_mask; static int ta_use_mask;   /* bit k-1 set = k-th request fails (k<=64) */
 static int ta_err_double, ta_err_foreign; static uint64_t ta_serial;
 static long ta_live_bytes;
+/* arena mode (histories that check that a call does not WRITE to memory it is only given to read): blocks come from one anonymous
+   mapping and are never reused; ta_seal() makes every page handed out so far read-only and moves the bump pointer to the next page
+   (blocks requested while sealed are writable), ta_unseal() makes everything writable again.  A store into a sealed block is a SIGSEGV,
+   reported as the CRASH of that case. */
+static unsigned char *ta_arena; static size_t ta_arena_len, ta_arena_off, ta_sealed_upto; static int ta_arena_on;
+static void ta_arena_enable(void)
+{
+    if (!ta_arena) {
+        ta_arena_len = (size_t)256 << 20;
+        ta_arena = (unsigned char*)mmap(NULL, ta_arena_len, PROT_READ | PROT_WRITE, MAP_PRIVATE | MAP_ANONYMOUS | MAP_NORESERVE, -1, 0);
+        if (ta_arena == MAP_FAILED) { fprintf(stderr, "arena mmap failed\n"); exit(4); }
+    }
+    ta_arena_off = 0; ta_sealed_upto = 0; ta_arena_on = 1;
+}
+static void ta_seal(void)
+{
+    size_t pg = (size_t)sysconf(_SC_PAGESIZE);
+    if (!ta_arena_on) return;
+    ta_arena_off = (ta_arena_off + pg - 1) / pg * pg;
+    if (ta_arena_off) mprotect(ta_arena, ta_arena_off, PROT_READ);
+    ta_sealed_upto = ta_arena_off;
+}
+static void ta_unseal(void)
+{
+    if (ta_arena_on && ta_sealed_upto) mprotect(ta_arena, ta_sealed_upto, PROT_READ | PROT_WRITE);
+    ta_sealed_upto = 0;
+}
+static int ta_in_arena(const void *p) { return ta_arena && (const unsigned char*)p >= ta_arena && (const unsigned char*)p < ta_arena + ta_arena_len; }
 static void *ta_malloc(size_t n)
 {
     ta_hdr *h;
@@ -95,6 +123,11 @@ static void *ta_malloc(size_t n)
     if (ta_starve) return NULL;
     if (ta_fail_at && ta_requests == ta_fail_at) return NULL;
     if (ta_use_mask && ta_requests <= 64 && ((ta_fail_mask >> (ta_requests - 1)) & 1UL)) return NULL;
+    if (ta_arena_on) {
+        size_t need = (sizeof(ta_hdr) + n + 15) & ~(size_t)15;
+        if (ta_arena_off + need > ta_arena_len) return NULL;
+        h = (ta_hdr*)(ta_arena + ta_arena_off); ta_arena_off += need;
+    } else
     h = (ta_hdr*)malloc(sizeof(ta_hdr) + n);   /* exact size: ASan red zone right after the n bytes */
     if (!h) return NULL;
     h->magic = TA_MAGIC; h->size = n; h->serial = ++ta_serial; h->pad = 0;
@@ -111,7 +144,7 @@ static void ta_free(void *p)
     if (h->magic != TA_MAGIC) { ta_err_foreign++; return; }
     h->magic = TA_DEAD; ta_live--; ta_frees++; ta_live_bytes -= (long)h->size;
     memset(h + 1, 0xDD, h->size);
-    free(h);
+    if (!ta_in_arena(h)) free(h);
 }
 static void ta_reset(void) { ta_live = ta_allocs = ta_frees = ta_fail_at = ta_requests = 0; ta_err_double = ta_err_foreign = 0; ta_live_bytes = 0; ta_use_mask = 0; ta_fail_mask = 0; }
 static void ta_install(void) { cJSON_Hooks h; h.malloc_fn = ta_malloc; h.free_fn = ta_free; cJSON_InitHooks(&h); }
